@@ -253,6 +253,12 @@ class ApiGen:
                     if tim_ev:
                         import re
                         tt = int(re.search(r't=(\d+)', tim_ev[0]).group(1))
+                        want = str((getattr(self, 'deps', None) or [0] * 6)[5] or 1001)
+                        got = tim_ev[0].split()[2].split('=')[-1]
+                        if getattr(self, 'deps', None) and got != want:
+                            # the creation time of the statement is what the clock IN FORCE says (the entry of the last injection, libc time when it was NULL)
+                            self.report('C11', 'create-stale-clock', 'create took the birthday from clock %s, but the clock in force since the last injection is %s: the reported birthday is unrelated to the creation time' % (got, want))
+                            self.report('C18', 'create-stale-clock', 'create consulted clock %s, the last injection installed %s' % (got, want))
                         if f['b'] != spec.birthday_of(tt):
                             self.report('C11', 'create-birthday', 'create at clock %d stored birthday index %d, expected %d' % (tt, f['b'], spec.birthday_of(tt)))
                             if not any(f['b'] == spec.birthday_of(int(re.search(r't=(\d+)', e).group(1))) for e in tim_ev):
